@@ -18,7 +18,22 @@ package main
 // final balance of every address the trees name — is read from the real post-state / the real stacks on one side and
 // computed by the Lean model from the initial balances on the other.
 //
-// Direct oracles (no model involved): c05/evm-value-mismatch/<class> (a Go mirror of the model's rules, classified by what
+// WHAT IS FED ABOUT SUCCESS, AND WHAT IS NOT (repair of review finding H-C05-1): per frame the line carries only how the
+// frame's BODY ended by itself — "" / REVERT / other error, taken from the last step traced AT THE CALLEE'S DEPTH (CaptureState
+// with an error = the step was refused, CaptureFault = it failed while executing), see (*evNode).outcome. It never carries the
+// flag the caller saw. A frame the engine refused before any callee code ran — depth limit, CanTransfer, CREATE / CALL with
+// value / SELFDESTRUCT in read-only mode — is sent as "o" with an empty body: model and mirror must predict the refusal
+// from the depth, their OWN balances and the read-only mode. Frames that run no code: a callee without code = "o"; fed
+// facts: a PRECOMPILE's result (from the flag, and only when the mirror does not refuse the frame itself), a top-level
+// precompile's result (CaptureEnd's error), CREATE onto a non-empty account (IsEmpty read before the step), a failed code
+// deposit (recomputed from the RETURN step's size operand and remaining gas with the literals 24576 / 200).
+// The REAL flags (callers' stacks) are printed in the implementation's answer and compared with the flags the Lean model
+// computes; oracle c05/evm-flag-mismatch/<kind> compares them with the Go mirror's.
+// The refusals are reached on purpose: shape "funds-boundary-inside-the-tree" (value = balance-1 / balance / balance+1 by
+// CALL / CALLCODE / CREATE), shape "self-recursion-to-the-depth-limit" (a contract calling itself with 2·10^14 gas: the real
+// engine enters evm.depth 1024 and refuses 1025 — the first cases of every run are forced to these shapes), "static-writes".
+//
+// Direct oracles (no model involved): c05/evm-flag-mismatch/<kind>, c05/evm-value-mismatch/<class> (a Go mirror of the model's rules, classified by what
 // the tree contains), c05/evm-value-mismatch/validator-path (Process ≠ ApplyTxs), c05/evm-supply-grew,
 // c05/evm-supply-changed/no-selfdestruct, c05/failed-tx-moved-value/evm, c05/negative-balance.
 
@@ -49,8 +64,16 @@ type evNode struct {
 	callee  common.Address
 	value   *big.Int
 	acts    []evAct
-	bodyErr string // "" = the body ended well (or never ran), "revert", "fail"
-	flag    int    // what the caller saw pushed: 1 / 0; -1 = never entered (attempted under write protection)
+	bodyErr string // how the BODY ended by itself: "" = well (or it never ran), "revert", "fail" — from the steps at the callee's depth, never from the flag
+	flag    int    // what the caller REALLY saw pushed: 1 / 0; -1 = never entered (attempted under write protection). Compared, never fed.
+	top     bool   // the frame of CaptureStart
+	steps   bool   // at least one step of its own code was traced
+	collide bool   // CREATE whose target account was not IsEmpty() just before the step (read from the state, not from the flag)
+	retSeen bool   // creation: its init code ended with an executed RETURN …
+	retSize *big.Int
+	gasLeft uint64 // … with this much gas left after the RETURN step (code deposit = 200 / byte is paid from it)
+	fed     string // precompile callee without a step: the precompile's result ("o"/"f"), resolved by evSimFrame
+	simFlag int    // the flag the harness mirror computes (-1 never entered, -2 not reached)
 }
 
 type evAct struct {
@@ -58,14 +81,47 @@ type evAct struct {
 	kill *common.Address
 }
 
+// outcome: how the frame's BODY ended by itself — the only thing about success that is FED to the model. It never looks at
+// n.flag (the exception, documented: a precompile's own result, see evSimFrame). A frame the engine refused before running
+// any code (depth limit, CanTransfer, write protection) has no body outcome: "o" is sent and the MODEL must refuse it.
+//   code ran:       from the last traced step at the callee's depth ("" / REVERT / any other error, out of gas included);
+//                   a creation whose init code RETURNed n bytes fails when n > 24576 or 200·n > the gas left after the RETURN
+//                   step (recomputed here from the step's operands, own literals)
+//   no code ran:    CREATE on a non-empty account (collide, read from the state before the step) = "f"; a precompile = its
+//                   result (fed); everything else (no code at the callee, empty init code) = "o"
 func (n *evNode) outcome() string {
-	switch {
-	case n.flag != 0:
+	if n.steps {
+		switch n.bodyErr {
+		case "revert":
+			return "r"
+		case "fail":
+			return "f"
+		}
+		if n.kind == "n" && n.retSeen {
+			if n.retSize.Cmp(big.NewInt(24576)) > 0 {
+				return "f"
+			}
+			if new(big.Int).Mul(n.retSize, big.NewInt(200)).Cmp(new(big.Int).SetUint64(n.gasLeft)) > 0 {
+				return "f"
+			}
+		}
 		return "o"
-	case n.bodyErr == "revert":
-		return "r"
 	}
-	return "f"
+	switch {
+	case n.collide:
+		return "f"
+	case n.top:
+		switch n.bodyErr { // CaptureEnd's error of a run without a step: a precompile's result (fed)
+		case "revert":
+			return "r"
+		case "fail":
+			return "f"
+		}
+		return "o"
+	case n.kind != "n" && vm.PrecompiledContracts[n.callee] != nil && n.fed != "":
+		return n.fed
+	}
+	return "o"
 }
 
 // one CaptureStart .. CaptureEnd
@@ -80,6 +136,7 @@ type evRun struct {
 }
 
 type evTracer struct {
+	am       *account.Manager // the manager the traced EVM works on (read only: IsEmpty of a CREATE target before the step)
 	runs     []*evRun
 	cur      *evRun
 	frames   []*evNode // frames[i] runs at interpreter depth i+1
@@ -103,7 +160,7 @@ func (t *evTracer) CaptureStart(from common.Address, to common.Address, create b
 	if value != nil {
 		v.Set(value)
 	}
-	t.cur = &evRun{from: from, to: to, create: create, gas: gas, top: &evNode{kind: k, callee: to, value: v, flag: 1}}
+	t.cur = &evRun{from: from, to: to, create: create, gas: gas, top: &evNode{kind: k, callee: to, value: v, flag: 1, top: true}}
 	t.runs = append(t.runs, t.cur)
 	t.frames = []*evNode{t.cur.top}
 	t.pending = nil
@@ -128,7 +185,7 @@ func evErrClass(err error) string {
 	return "fail"
 }
 
-func (t *evTracer) step(env *vm.EVM, op vm.OpCode, stack *vm.Stack, contract *vm.Contract, depth int, err error, fault bool) {
+func (t *evTracer) step(env *vm.EVM, op vm.OpCode, gas, cost uint64, stack *vm.Stack, contract *vm.Contract, depth int, err error, fault bool) {
 	if t.cur == nil || t.cur.ended {
 		t.problem("step outside a run")
 		return
@@ -160,6 +217,7 @@ func (t *evTracer) step(env *vm.EVM, op vm.OpCode, stack *vm.Stack, contract *vm
 		return
 	}
 	cur := t.frames[depth-1]
+	cur.steps = true
 	// 2. this step
 	if fault {
 		cur.bodyErr = evErrClass(err) // the step was logged and executed; it ended the frame (REVERT, or an error while executing)
@@ -190,6 +248,13 @@ func (t *evTracer) step(env *vm.EVM, op vm.OpCode, stack *vm.Stack, contract *vm
 		if len(data) >= 3 {
 			// the new address by the harness's own call of the address rule: creator's context address + tx hash
 			node = &evNode{kind: "n", callee: crypto.CreateContractAddress(contract.GetAddress(), env.TxHash), value: back(0), flag: -1}
+			if err == nil && t.am != nil {
+				node.collide = !t.am.GetAccount(node.callee).IsEmpty()
+			}
+		}
+	case vm.RETURN:
+		if len(data) >= 2 && err == nil && cur.kind == "n" && gas >= cost {
+			cur.retSeen, cur.retSize, cur.gasLeft = true, back(1), gas-cost
 		}
 	case vm.SELFDESTRUCT:
 		if len(data) >= 1 {
@@ -199,15 +264,17 @@ func (t *evTracer) step(env *vm.EVM, op vm.OpCode, stack *vm.Stack, contract *vm
 	}
 	if err != nil {
 		// the step was NOT executed (stack / write-protection / gas check failed): the frame ends with this error
-		cur.bodyErr = evErrClass(err)
-		if err.Error() == "evm: write protection" {
-			// the attempted action is passed on: the model must refuse it by its own read-only rule
+		if err.Error() == "evm: write protection" && (node != nil || kill != nil) {
+			// the attempted CREATE / CALL with value / SELFDESTRUCT is passed on and NO error is recorded for the body: the model
+			// must refuse it by its own read-only rule (a model without the rule would go on and answer other flags)
 			if node != nil {
 				cur.acts = append(cur.acts, evAct{sub: node})
-			} else if kill != nil {
+			} else {
 				cur.acts = append(cur.acts, evAct{kill: kill})
 			}
+			return
 		}
+		cur.bodyErr = evErrClass(err)
 		return
 	}
 	if node != nil {
@@ -219,12 +286,12 @@ func (t *evTracer) step(env *vm.EVM, op vm.OpCode, stack *vm.Stack, contract *vm
 }
 
 func (t *evTracer) CaptureState(env *vm.EVM, pc uint64, op vm.OpCode, gas, cost uint64, memory *vm.Memory, stack *vm.Stack, contract *vm.Contract, depth int, err error) error {
-	t.step(env, op, stack, contract, depth, err, false)
+	t.step(env, op, gas, cost, stack, contract, depth, err, false)
 	return nil
 }
 
 func (t *evTracer) CaptureFault(env *vm.EVM, pc uint64, op vm.OpCode, gas, cost uint64, memory *vm.Memory, stack *vm.Stack, contract *vm.Contract, depth int, err error) error {
-	t.step(env, op, stack, contract, depth, err, true)
+	t.step(env, op, gas, cost, stack, contract, depth, err, true)
 	return nil
 }
 
@@ -240,7 +307,11 @@ func (t *evTracer) CaptureEnd(output []byte, gasUsed uint64, tm time.Duration, e
 	if err != nil {
 		t.cur.top.flag = 0
 		if t.cur.top.bodyErr == "" {
-			t.cur.top.bodyErr = evErrClass(err)
+			if !t.cur.top.steps {
+				t.cur.top.bodyErr = evErrClass(err) // no code ran: a precompile's own result (fed)
+			} else if t.cur.top.kind != "n" {
+				t.problem("top-level call failed with %v although its code ended well", err)
+			} // (a creation: the code deposit failed — recomputed by outcome() from the RETURN step)
 		}
 	} else if t.cur.top.bodyErr != "" {
 		t.problem("top-level frame ended with %s but the call returned no error", t.cur.top.bodyErr)
@@ -315,13 +386,13 @@ func evFlags(n *evNode, out *[]byte) {
 
 func evTopOf(tx *types.Transaction) *evNode {
 	if tx.Type() == params.CreateContractTx {
-		return &evNode{kind: "n", callee: crypto.CreateContractAddress(tx.From(), tx.Hash()), value: new(big.Int).Set(tx.Amount()), flag: 1}
+		return &evNode{kind: "n", callee: crypto.CreateContractAddress(tx.From(), tx.Hash()), value: new(big.Int).Set(tx.Amount()), flag: 1, top: true}
 	}
 	to := common.Address{}
 	if tx.To() != nil {
 		to = *tx.To()
 	}
-	return &evNode{kind: "c", callee: to, value: new(big.Int).Set(tx.Amount()), flag: 1}
+	return &evNode{kind: "c", callee: to, value: new(big.Int).Set(tx.Amount()), flag: 1, top: true}
 }
 
 // evAttach gives every included tx the tree of its run (an included tx without a run took evm.Call's early exit: no code,
@@ -421,12 +492,44 @@ func (s *evSimSt) move(a, b common.Address, v *big.Int) {
 	s.bal[b] = new(big.Int).Add(s.get(b), v)
 }
 
+// evSimFrame: the Go mirror of execFrame. It decides every refusal itself (depth, CanTransfer, read-only) from its own balances,
+// records the flag it computes in n.simFlag, and resolves the one fed success fact: the result of a precompile that ran no step
+// (n.fed) — taken from the real flag ONLY when the mirror itself does not refuse the frame.
 func evSimFrame(depth int, static bool, self common.Address, s *evSimSt, n *evNode, note func(string)) (*evSimSt, bool) {
+	kindName := map[string]string{"c": "call", "cc": "callcode", "d": "delegatecall", "s": "staticcall", "n": "create"}[n.kind]
 	if depth > 1024 {
+		note("refused:depth-limit:" + kindName)
+		n.simFlag = 0
 		return s, false
 	}
-	if (n.kind == "c" || n.kind == "cc" || n.kind == "n") && s.get(self).Cmp(n.value) < 0 {
-		return s, false
+	if depth == 1024 {
+		note("entered-at-the-depth-limit(evm.depth=1024):" + kindName)
+	}
+	if n.kind == "c" || n.kind == "cc" || n.kind == "n" {
+		d := new(big.Int).Sub(s.get(self), n.value)
+		if depth >= 1 && n.value.Sign() > 0 && d.IsInt64() && d.Int64() >= -1 && d.Int64() <= 1 {
+			note(fmt.Sprintf("funds-boundary:%s:balance-value=%d", kindName, d.Int64()))
+		}
+		if d.Sign() < 0 {
+			if depth >= 1 {
+				note("refused:insufficient-balance:" + kindName)
+			}
+			n.simFlag = 0
+			return s, false
+		}
+	}
+	if !n.steps && !n.top && n.kind != "n" && vm.PrecompiledContracts[n.callee] != nil {
+		n.fed = "o"
+		if n.flag == 0 {
+			n.fed = "f"
+			note("fed:precompile-failed")
+		}
+	}
+	if n.collide {
+		note("fed:create-onto-a-non-empty-account(collision)")
+	}
+	if n.kind == "n" && n.steps && n.bodyErr == "" && n.outcome() == "f" {
+		note("recomputed:code-deposit-failed")
 	}
 	w := s.clone()
 	if n.kind == "c" || n.kind == "n" {
@@ -441,6 +544,8 @@ func evSimFrame(depth int, static bool, self common.Address, s *evSimSt, n *evNo
 	for _, a := range n.acts {
 		if a.sub != nil {
 			if st && (a.sub.kind == "n" || a.sub.kind == "c" && a.sub.value.Sign() != 0) {
+				note("refused:read-only:" + map[string]string{"c": "call-with-value", "n": "create"}[a.sub.kind])
+				a.sub.simFlag = -1
 				done = false
 				break
 			}
@@ -448,6 +553,7 @@ func evSimFrame(depth int, static bool, self common.Address, s *evSimSt, n *evNo
 			continue
 		}
 		if st {
+			note("refused:read-only:selfdestruct")
 			done = false
 			break
 		}
@@ -480,9 +586,36 @@ func evSimFrame(depth int, static bool, self common.Address, s *evSimSt, n *evNo
 		break
 	}
 	if done && n.outcome() == "o" {
+		n.simFlag = 1
 		return w, true
 	}
+	n.simFlag = 0
 	return s, false
+}
+
+// evResetSim marks every frame "not reached by the mirror" before a simulation
+func evResetSim(n *evNode) {
+	n.simFlag = -2
+	for _, a := range n.acts {
+		if a.sub != nil {
+			evResetSim(a.sub)
+		}
+	}
+}
+
+// evFlagMismatch: the first frame (execution order) whose REAL flag is not the flag the mirror computes
+func evFlagMismatch(n *evNode, depth int) (*evNode, int) {
+	if n.flag != n.simFlag && !(n.flag == -1 && n.simFlag == -2) {
+		return n, depth
+	}
+	for _, a := range n.acts {
+		if a.sub != nil {
+			if m, d := evFlagMismatch(a.sub, depth+1); m != nil {
+				return m, d
+			}
+		}
+	}
+	return nil, 0
 }
 
 func init0(s *evSimSt, a common.Address) bool { return s.get(a).Sign() == 0 }
@@ -502,6 +635,7 @@ func evSimBlock(init map[common.Address]*big.Int, income common.Address, hasInco
 		if top == nil {
 			top = evTopOf(tx)
 		}
+		evResetSim(top)
 		if s.get(tx.GasPayer()).Cmp(maxFee) < 0 || tx.GasLimit() < e.intrinsic {
 			inc = append(inc, false)
 			continue
@@ -538,7 +672,11 @@ func evClass(txs []*evTx) (string, map[string]bool) {
 			if d >= 1 {
 				has["inner-"+map[string]string{"c": "call", "cc": "callcode", "d": "delegatecall", "s": "staticcall", "n": "create"}[n.kind]] = true
 				if n.value.Sign() > 0 && n.flag == 1 && (n.kind == "c" || n.kind == "n") {
-					has[fmt.Sprintf("inner-value-depth-%d", d)] = true
+					if d <= 6 {
+						has[fmt.Sprintf("inner-value-depth-%d", d)] = true
+					} else {
+						has["inner-value-depth-7-and-deeper"] = true
+					}
 				}
 				if n.flag == 0 && len(n.acts) == 0 && n.bodyErr == "" && n.value.Sign() > 0 {
 					has["inner-refused-or-failed-without-a-step(value>0)"] = true
@@ -601,7 +739,7 @@ func evEmit(c *Ctx, where string, init func(common.Address) *big.Int, post func(
 	if hasIncome {
 		incLabel = lab.of(income)
 	}
-	var txParts []string
+	// pass 1: labels in the order of the line (the frame strings of this pass are thrown away: outcomes are not resolved yet)
 	for _, e := range txs {
 		top := e.top
 		if top == nil {
@@ -609,7 +747,7 @@ func evEmit(c *Ctx, where string, init func(common.Address) *big.Int, post func(
 		}
 		lab.of(e.tx.From())
 		lab.of(e.tx.GasPayer())
-		txParts = append(txParts, fmt.Sprintf("T %d %d %d %s %d %d %s", lab.of(e.tx.From()), lab.of(e.tx.GasPayer()), e.tx.GasLimit(), e.tx.GasPrice().String(), e.intrinsic, e.gasUsed, evFrameString(top, lab)))
+		evFrameString(top, lab)
 	}
 	initM := map[common.Address]*big.Int{}
 	var balParts, outParts []string
@@ -624,6 +762,16 @@ func evEmit(c *Ctx, where string, init func(common.Address) *big.Int, post func(
 		if nb.Sign() < 0 {
 			c.Fail("c05/negative-balance", fmt.Sprintf("%s: balance of %s becomes %s", where, a.String(), nb.String()), nil)
 		}
+	}
+	// pass 2: the mirror (decides the refusals itself; resolves the fed precompile results), THEN the line
+	want, wantInc := evSimBlock(initM, income, hasIncome, txs, func(k string) { c.Count("evmv:sim:" + k) })
+	var txParts []string
+	for _, e := range txs {
+		top := e.top
+		if top == nil {
+			top = evTopOf(e.tx)
+		}
+		txParts = append(txParts, fmt.Sprintf("T %d %d %d %s %d %d %s", lab.of(e.tx.From()), lab.of(e.tx.GasPayer()), e.tx.GasLimit(), e.tx.GasPrice().String(), e.intrinsic, e.gasUsed, evFrameString(top, lab)))
 	}
 	incBits, flagBits := []byte{}, []byte{}
 	gasOK := true
@@ -656,10 +804,22 @@ func evEmit(c *Ctx, where string, init func(common.Address) *big.Int, post func(
 		c.Count("evmv:has:" + k)
 	}
 	c.Count("evmv:class:" + class)
-	want, wantInc := evSimBlock(initM, income, hasIncome, txs, func(k string) { c.Count("evmv:sim:" + k) })
 	for i, e := range txs {
 		if wantInc[i] != e.included {
 			c.Fail("c05/evm-value-mismatch/inclusion", fmt.Sprintf("%s: tx %d (gasLimit %d, price %s, amount %s): the engine included=%v, the rules say %v", where, i, e.tx.GasLimit(), e.tx.GasPrice(), e.tx.Amount(), e.included, wantInc[i]), op)
+		}
+	}
+	// the success flag of every frame: the REAL one (caller's stack) against the one the rules give from depth, balances and the
+	// read-only mode (the same comparison the op line makes with the Lean model's flags)
+	for i, e := range txs {
+		if !e.included || !wantInc[i] || e.top == nil {
+			continue
+		}
+		if m, d := evFlagMismatch(e.top, 0); m != nil {
+			kindName := map[string]string{"c": "call", "cc": "callcode", "d": "delegatecall", "s": "staticcall", "n": "create"}[m.kind]
+			c.Fail("c05/evm-flag-mismatch/"+kindName, fmt.Sprintf("%s: tx %d, %s entered at evm.depth %d to #%d with value %s (body outcome %s, code ran: %v): the engine's flag is %d, the rules (depth limit 1024, CanTransfer balance >= value, read-only refusals, body outcome) give %d [-1 = refused under write protection, -2 = never reached]",
+				where, i, strings.ToUpper(kindName), d, lab.of(m.callee), m.value, m.outcome(), m.steps, m.flag, m.simFlag), op)
+			break
 		}
 	}
 	for _, a := range lab.order {
@@ -730,7 +890,7 @@ func (l *ledger) evmValueBlock(b *types.Block, miner common.Address) {
 	res := Safe(func() string {
 		am := account.NewManager(b.ParentHash(), l.n.DB)
 		proc := transaction.NewTxProcessor(keyAddr(l.w.FounderKey), nodeChainID, parentLoader{l.n}, am, l.n.DB, l.n.DM)
-		tr := &evTracer{}
+		tr := &evTracer{am: am}
 		proc.VerifSetTracer(tr)
 		var txs types.Transactions
 		var es []*evTx
@@ -866,6 +1026,7 @@ type evGen struct {
 	r       *rand.Rand
 	scripts [][]*evScript            // per slot
 	need    map[common.Address]int64 // minimum initial balance a hand-made shape asks for
+	exact   map[common.Address]int64 // initial balance a hand-made shape fixes (the CanTransfer boundary)
 	frames  int
 }
 
@@ -1087,7 +1248,13 @@ func evmValueCases(c *Ctx, mode string) {
 	w := newEvWorld()
 	defer w.close()
 	for i := 0; i < n; i++ {
-		res, msg := SafeMsg(func() string { evmValueCase(c, w, r); return "ok" })
+		// the first cases are forced: the descent to the depth limit with each of CALL / CALLCODE / DELEGATECALL / STATICCALL, then
+		// six draws of the funds-boundary shape (every run reaches the refusals, whatever the seed)
+		force := -1
+		if i < 10 {
+			force = i
+		}
+		res, msg := SafeMsg(func() string { evmValueCase(c, w, r, force); return "ok" })
 		if res == "panic" {
 			c.Fail("c05/evm-value-case-panicked", msg, nil)
 			c.Count("evmv:case-panicked")
@@ -1095,9 +1262,10 @@ func evmValueCases(c *Ctx, mode string) {
 	}
 }
 
-func evmValueCase(c *Ctx, w *evWorld, r *rand.Rand) {
-	g := &evGen{c: c, w: w, r: r, scripts: make([][]*evScript, len(w.slots)), need: map[common.Address]int64{}}
+func evmValueCase(c *Ctx, w *evWorld, r *rand.Rand, force int) {
+	g := &evGen{c: c, w: w, r: r, scripts: make([][]*evScript, len(w.slots)), need: map[common.Address]int64{}, exact: map[common.Address]int64{}}
 	type planTx struct {
+		deep        bool
 		from, payer int
 		to          *common.Address
 		data        []byte
@@ -1122,7 +1290,7 @@ func evmValueCase(c *Ctx, w *evWorld, r *rand.Rand) {
 		}
 		g.frames = 0
 		switch k := r.Intn(10); {
-		case r.Intn(9) == 0:
+		case r.Intn(9) == 0 || (force >= 0 && i == 0):
 			// hand-made shapes the random plans rarely reach
 			p.slot = r.Intn(len(w.slots))
 			self := w.slots[p.slot]
@@ -1136,7 +1304,59 @@ func evmValueCase(c *Ctx, w *evWorld, r *rand.Rand) {
 				return &evPAct{kind: kind, slot: slot, target: w.slots[slot], value: v, gas: -1, script: sc, sel: reg(slot, sc)}
 			}
 			var sc *evScript
-			switch r.Intn(7) {
+			shape := r.Intn(9)
+			if shape == 8 && r.Intn(3) != 0 {
+				shape = 7 // (the descent to the depth limit is long: a third of its draws)
+			}
+			forced := force >= 0 && i == 0
+			if forced {
+				shape = 7
+				if force < 4 {
+					shape = 8
+				}
+			}
+			switch shape {
+			case 7:
+				// the CanTransfer boundary INSIDE the tree: the contract starts with a balance fixed here, receives the tx amount, then
+				// spends balance-1 / balance / balance+1 by CALL / CALLCODE / CREATE (to a plain address, a contract, a precompile),
+				// then tries to pay 1 more (after spending everything: refused)
+				b0 := int64(r.Intn(30))
+				g.exact[self] = b0
+				v := new(big.Int).Add(big.NewInt(b0+int64(r.Intn(3)-1)), p.amount)
+				if v.Sign() < 0 {
+					v = new(big.Int)
+				}
+				var a *evPAct
+				switch kind := []string{"c", "c", "cc", "n"}[r.Intn(4)]; kind {
+				case "n":
+					a = &evPAct{kind: "n", slot: -1, value: v, gas: -1, script: &evScript{end: []string{"ret1", "ret0", "stop"}[r.Intn(3)]}}
+				default:
+					switch r.Intn(3) {
+					case 0:
+						a = &evPAct{kind: kind, slot: -1, target: w.plain[r.Intn(len(w.plain))], value: v, gas: -1}
+					case 1:
+						a = call(kind, other, v, &evScript{end: []string{"stop", "stop", "revert"}[r.Intn(3)]})
+					default:
+						a = &evPAct{kind: kind, slot: -1, target: common.BytesToAddress([]byte{4}), value: v, gas: -1}
+					}
+				}
+				sc = &evScript{acts: []*evPAct{a, {kind: "c", slot: -1, target: w.plain[1], value: big.NewInt(1), gas: -1}}, end: "stop"}
+				c_count(g, "funds-boundary-inside-the-tree")
+			case 8:
+				// the depth limit on the REAL engine: a contract that calls ITSELF (CALL / CALLCODE / DELEGATECALL / STATICCALL, all gas
+				// but 1/64 each time) until the EVM refuses; the tx gets 2·10^14 gas (price 1, block gas limit raised) so that gas
+				// is not what stops the descent
+				kind := []string{"c", "cc", "d", "s"}[r.Intn(4)]
+				if forced {
+					kind = []string{"c", "cc", "d", "s"}[force]
+				}
+				sc = &evScript{end: "stop"}
+				a := &evPAct{kind: kind, slot: p.slot, target: self, value: big.NewInt(int64(r.Intn(2))), gas: -1, script: sc}
+				g.need[self] = 2
+				sc.acts = []*evPAct{a}
+				a.sel = reg(p.slot, sc)
+				p.deep, p.price = true, big.NewInt(1)
+				c_count(g, "self-recursion-to-the-depth-limit:"+kind)
 			case 6:
 				// SELFDESTRUCT in delegated code two levels down, the level in between then REVERTs / fails: the revert covers the
 				// self-destruct but NOT the transfer that entered the dying contract — only the undo of the SuicideLog itself can
@@ -1214,6 +1434,9 @@ func evmValueCase(c *Ctx, w *evWorld, r *rand.Rand) {
 			p.to, p.data = &to, []byte{1}
 		}
 		p.gasLimit = uint64(300000+r.Intn(2500000)) + uint64(i)
+		if p.deep {
+			p.gasLimit = 200000000000000 + uint64(i)
+		}
 		plans = append(plans, p)
 	}
 	// code of every slot, then the transactions (a create tx carries its init code)
@@ -1241,7 +1464,11 @@ func evmValueCase(c *Ctx, w *evWorld, r *rand.Rand) {
 		}
 		intr := evIntrinsic(tx)
 		// gas limit classes: ample / tight around the intrinsic gas / below it
-		switch r.Intn(14) {
+		cls := r.Intn(14)
+		if p.deep {
+			cls = 13
+		}
+		switch cls {
 		case 0:
 			o.GasLimit = intr + uint64(r.Intn(3000))
 		case 1:
@@ -1271,7 +1498,7 @@ func evmValueCase(c *Ctx, w *evWorld, r *rand.Rand) {
 		b := new(big.Int).Add(lemo(int64(1+r.Intn(50))), big.NewInt(int64(r.Intn(1000))))
 		// sometimes exactly around what user i's first tx needs
 		for _, p := range plans {
-			if (p.payer == i || p.from == i) && r.Intn(5) == 0 {
+			if (p.payer == i || p.from == i) && r.Intn(5) == 0 && !p.deep {
 				need := new(big.Int)
 				if p.payer == i {
 					need.Mul(new(big.Int).SetUint64(p.gasLimit), p.price)
@@ -1292,6 +1519,9 @@ func evmValueCase(c *Ctx, w *evWorld, r *rand.Rand) {
 		init[s] = big.NewInt(int64([]int{0, 0, 1, 4, 9, 20, 100}[r.Intn(7)]))
 		if init[s].Int64() < g.need[s] {
 			init[s] = big.NewInt(g.need[s] + int64(r.Intn(3)))
+		}
+		if b, ok := g.exact[s]; ok {
+			init[s] = big.NewInt(b)
 		}
 	}
 	for _, s := range w.plain {
@@ -1315,10 +1545,15 @@ func evmValueCase(c *Ctx, w *evWorld, r *rand.Rand) {
 		}
 	})
 	header := &types.Header{ParentHash: pre, MinerAddress: miner, Height: 2, GasLimit: 105000000, Time: 1538209751 + 50000}
+	for _, p := range plans {
+		if p.deep {
+			header.GasLimit = 1000000000000000
+		}
+	}
 	// ---- miner path
 	am := account.NewManager(pre, w.db)
 	proc := transaction.NewTxProcessor(w.mgr, nodeChainID, evLoader{}, am, w.db, nil)
-	tr := &evTracer{}
+	tr := &evTracer{am: am}
 	proc.VerifSetTracer(tr)
 	var txs types.Transactions
 	for _, e := range es {
